@@ -122,6 +122,8 @@ def r2_guards(F, res):
     fam = family(F)
     n = 0
     seen_sites = set()
+    reach_guards = {}
+    reach_last = {}
     def is_item_list(x):
         # the item vector of the actions file, from a closure (captured) or from the function body
         return mir.contains(x, lambda y: y in (("upvar", "ast.items"), ("upvar", "ast"), ("var", "ast"))
@@ -145,15 +147,22 @@ def r2_guards(F, res):
             continue
         for p in fpaths:
             guard = None   # last contains cond
+            seen_guards = []
             for e in p.events:
                 if e[0] == "cond":
                     g = contains_guard(e[1])
                     if g:
                         guard = (g, e[2])
+                        seen_guards.append((set_name(g[0]), fmt(g[1])[:120], e[2]))
                 elif e[0] == "call" and (e[1].startswith("alloc::vec::Vec::<T, A>::push") or e[1].endswith(">::extend")) and \
                         e[2] and len(e[2]) > 1 and is_item_list(e[2][0]):
                     item = e[2][1]
                     where = "%s:%s" % (f.file, e[3])
+                    # every lookup met on the way to this site, with the values it had (over all paths): a lookup that always
+                    # has the same value when the site is reached guards the site, whether it is the last one or not
+                    for sg in seen_guards:
+                        reach_guards.setdefault((where, e[1]), {}).setdefault(sg[:2], set()).add(sg[2])
+                    reach_last.setdefault((where, e[1]), set()).add((set_name(guard[0][0]), fmt(guard[0][1])[:120]) if guard else None)
                     if (where, e[1]) in seen_sites:
                         continue
                     seen_sites.add((where, e[1]))
@@ -205,6 +214,15 @@ def r2_guards(F, res):
                                       "the nonterminal's own name: a deleted helper struct is not re-added", where)
                     else:
                         res.ok(rid, key, where, "guarded by %s" % fmt(gkey)[:80])
+    # an item must not ALSO hang on the name of another item: a site whose reaching paths all passed `not in <set>` for a
+    # key that is not the site's own (last) lookup is not re-created when only its own name is missing
+    for site, gs in sorted(reach_guards.items()):
+        own = reach_last.get(site, set())
+        foreign = [k for k, vals in gs.items() if len(vals) == 1 and k not in own]
+        if foreign:
+            res.violation(rid, "foreign-guard/%s" % foreign[0][0], "an item appended at %s is also guarded by a lookup of another "
+                          "item's name (%s in `%s`): it is not re-added when only itself is missing from the file" % (
+                              site[0], foreign[0][1][:80], foreign[0][0]), site[0])
     if n < 4:
         res.anchor_lost(rid, "%d guarded push sites found, 4 expected" % n)
 
